@@ -21,6 +21,28 @@ CHECKS = {
     ),
 }
 
+CHECKS["C13"] = (
+    "exploration",
+    "history + executable reference model (plain list + key function) compared on the full public view after every operation",
+    "Operation sequences on real KeyedLists are run in lock-step with a plain-list model; after every operation the complete "
+    "public view (list, len, keys/items, l[k], get, index_for_key, l[i] for every i in [-len-1,len], membership, index/count, "
+    "slices, ==) plus _list/_dict coherence is compared, raising operations must raise the documented family and leave the view "
+    "unchanged. All start containers (<=3 items of a 3-key x 2-payload universe) x all operations/arguments are enumerated to "
+    "sequence length 1 (quick) / 2 (thorough), with seeded-random 30-operation histories beyond, over 8 item universes.",
+    "Trusted: the model in checks/c13.py; typed-ness of derived containers and order of keys()/items() are not judged.",
+    "DESIGN.md §3 C13",
+)
+CHECKS["C14"] = (
+    "exploration",
+    "history + executable reference model (dict key -> latest item, set algebra on keys) compared on the full public view after every operation",
+    "Operation sequences on real KeyedSets (6 universes x both enforce_item_equivalence settings) are run in lock-step with a "
+    "dict model; after every operation len/items/keys/membership/lookup by every item and key are compared; results of |,&,-,^ "
+    "and their in-place forms against KeyedSet and built-in set operands are checked on keys and must still answer by key with "
+    "the same key function and flag. Exhaustive over all start sets x all operations to length 2 (strided in quick), random beyond.",
+    "Trusted: the model in checks/c14.py; cases where by-key and by-item readings of a built-in set operand differ, and flag+unequal-payload operands, are UNSPECIFIED and counted.",
+    "DESIGN.md §3 C14",
+)
+
 NOT_YET = {}
 
 
